@@ -286,9 +286,10 @@ let xdec_case line =
   | Err _ -> print_endline "ERR"
   | r -> print_endline (res_tag r)
 
-(* xattr_open_map_file: istream_get_line (LTRIM | RTRIM | SKIP_EMPTY) glue around the model's line dispatch *)
+(* the xattr map file, first way (kept as a cross-check of the two models): OCaml glue for istream_get_line
+   (LTRIM | RTRIM | SKIP_EMPTY) around the LINE model TextModel.xattr_line *)
 exception Stop of Stdlib.String.t
-let xfile_case line =
+let xfile_glue line =
   let data = unhex line in
   (* split at '\n'; a last line without '\n' counts when it is not empty; a '\r' before '\n' is dropped *)
   let nl = n_of_int 10 and cr = n_of_int 13 in
@@ -324,8 +325,50 @@ let xfile_case line =
       List.iter (fun (k, v) -> Buffer.add_string buf (hex k); Buffer.add_char buf '=';
                   Buffer.add_string buf (hex v); Buffer.add_char buf ',') es;
       Buffer.add_string buf "};") !pats;
-    print_endline (Buffer.contents buf)
-  with Stop s -> print_endline s)
+    Buffer.contents buf
+  with Stop s -> s)
+
+
+(* the xattr map file, second way: the extracted WHOLE-FILE model XattrFileModel.xattr_open_map_file (the line loop
+   of istream_get_line, the allocations and frees, the list linking are all inside the model).  The model runs with
+   three window oracles (the stream hands out everything it has, as the real 128 KiB buffer does for these files /
+   7 bytes / 1 byte at a time); the payload must not depend on the oracle, a map must own exactly what is alive,
+   closing it must release everything, a refusal must have released everything. *)
+let xfile_model win data =
+  match xattr_open_gen false win data with
+  | Ok (X_map (t, map)) ->
+    let buf = Buffer.create 128 in
+    Buffer.add_string buf "OK ";
+    let bad = ref None in
+    List.iter (fun p ->
+      (match pat_path p with
+       | Ok path -> Buffer.add_string buf (hex path)
+       | r -> bad := Some (res_tag r));
+      Buffer.add_char buf '{';
+      List.iter (fun e -> Buffer.add_string buf (hex e.e_key); Buffer.add_char buf '=';
+                  Buffer.add_string buf (hex e.e_val); Buffer.add_char buf ',') p.p_ents;
+      Buffer.add_string buf "};") map.m_pats;
+    (match !bad with
+     | Some tg -> tg
+     | None ->
+       (match xattr_close_map_file t map with
+        | Ok t' -> if t'.r_live = [] then Buffer.contents buf else "MODEL-INCONSISTENT leak-after-close"
+        | r -> res_tag r ^ "-close"))
+  | Ok (X_refused (t, _, _)) -> if t.r_live = [] then "ERR" else "MODEL-INCONSISTENT leak-on-refusal"
+  | Err _ -> "MODEL-INCONSISTENT err"
+  | r -> res_tag r
+
+let xfile_case line =
+  let data = unhex line in
+  let n = List.length data in
+  let whole = nat_of_int (min 131072 (max n 1)) in
+  let r1 = xfile_model (fun _ -> whole) data in
+  let r2 = if n <= 6000 then xfile_model (fun _ -> nat_of_int 7) data else r1 in
+  let r3 = if n <= 1500 then xfile_model (fun _ -> nat_of_int 1) data else r1 in
+  let r4 = if n <= 20000 then xfile_glue line else r1 in
+  if r1 <> r2 || r1 <> r3 then print_endline "MODEL-INCONSISTENT window"
+  else if r1 <> r4 then print_endline "MODEL-INCONSISTENT line-model"
+  else print_endline r1
 
 let () =
   let mode = if Array.length Sys.argv > 1 then Sys.argv.(1) else "hl" in
